@@ -1,24 +1,1027 @@
-//! C14 — not implemented yet (stub so that the registry compiles).
+//! C14 — OS key-repeat is forwarded for, and only for, keys kanata is holding down.
+//!
+//! Oracle: invariant monitor on the stepper's OS model.
+//!  * safety (always): a `Repeat` input produces at most one output, it is a repeat, and it is for a
+//!    key that is down in the OS model at that moment;
+//!  * completeness (only under the statement's precondition): the repeated physical key was pressed
+//!    from a settled state, the layer stack has not changed since, kanata is not in sequence mode,
+//!    and the set "down now, not down before that press, inside the key's private output alphabet"
+//!    is non-empty -> exactly one repeat is emitted and it is for a key of that set; if the key's
+//!    actions use modifiers only as output-chord prefixes and a non-modifier of the set is down,
+//!    the repeat is for a non-modifier.
+//!
+//! Every judged physical key has its own output alphabet (letters, two modifiers, override
+//! outputs), so attribution never depends on kanata's tables.
 
+use crate::core::rng::Rng;
+use crate::core::sim::{code_name, osc, render_hist, Ev, OutKind, Sim};
 use crate::core::{CaseOut, Check, Ctx};
+use serde_json::{json, Value};
+use std::collections::BTreeSet;
 
 pub struct C14Check;
 pub static C14: C14Check = C14Check;
+
+// ------------------------------------------------------------------------------------------------
+// configuration generator
+
+struct Alph {
+    phys: &'static str,
+    letters: &'static [&'static str],
+    mods: &'static [&'static str],
+    ov: &'static [&'static str],
+}
+
+const ALPH: [Alph; 3] = [
+    Alph { phys: "q", letters: &["q", "a", "s", "d", "f", "g"], mods: &["lsft", "lctl"], ov: &["1", "2"] },
+    Alph { phys: "w", letters: &["w", "h", "j", "k", "l", "n"], mods: &["rsft", "rctl"], ov: &["3", "4"] },
+    Alph { phys: "e", letters: &["e", "u", "i", "o", "p", "y"], mods: &["lalt", "ralt"], ov: &["5", "6"] },
+];
+/// outputs of two-key chords (v1 and v2), shared by the participants
+const CHORD_POOL: [[&str; 2]; 2] = [["7", "8"], ["9", "0"]];
+const CTX_Z: &str = "z";
+const CTX_X: &str = "x";
+const CTX_MOD: &str = "lmet";
+const LAYER_KEYS: [&str; 2] = ["f1", "f2"];
+const SWITCH_KEYS: [&str; 2] = ["f3", "f4"];
+const LEADER: &str = "f5";
+
+fn prefix_of(m: &str) -> &'static str {
+    match m {
+        "lsft" => "S-",
+        "rsft" => "RS-",
+        "lctl" => "C-",
+        "rctl" => "RC-",
+        "lalt" => "A-",
+        _ => "RA-",
+    }
+}
+
+#[derive(Default, Clone)]
+struct CellInfo {
+    text: String,
+    forms: BTreeSet<&'static str>,
+    depth: u32,
+    mod_as_key: bool,
+    unmod: bool,
+    transparent: bool,
+    /// some key name is written twice in the cell (kanata lists every output once, so "last-listed"
+    /// is then not the position in the text)
+    dup_keys: bool,
+}
+
+struct ActGen<'a> {
+    rng: &'a mut Rng,
+    a: &'a Alph,
+    n_layers: usize,
+    info: CellInfo,
+    allow_mod_keys: bool,
+    t: u32,
+}
+
+impl<'a> ActGen<'a> {
+    fn letter(&mut self) -> String {
+        self.rng.pick(self.a.letters).to_string()
+    }
+    fn chord(&mut self) -> String {
+        self.info.forms.insert("chord");
+        let mut ms: Vec<&str> = self.a.mods.to_vec();
+        self.rng.shuffle(&mut ms);
+        let n = 1 + self.rng.usize(2);
+        let p: String = ms.iter().take(n).map(|m| prefix_of(m)).collect();
+        format!("{p}{}", self.letter())
+    }
+    fn leaf(&mut self) -> String {
+        let r = self.rng.usize(10);
+        if r < 5 {
+            self.info.forms.insert("key");
+            self.letter()
+        } else if r < 8 {
+            self.chord()
+        } else if self.allow_mod_keys {
+            self.info.forms.insert("mod-key");
+            self.info.mod_as_key = true;
+            self.rng.pick(self.a.mods).to_string()
+        } else {
+            self.info.forms.insert("key");
+            self.letter()
+        }
+    }
+    fn cond(&mut self) -> String {
+        let l = format!("l{}", self.rng.usize(self.n_layers));
+        match self.rng.usize(9) {
+            0 => format!("({CTX_Z})"),
+            1 => format!("({CTX_MOD})"),
+            2 => format!("({CTX_Z} {CTX_MOD})"),
+            3 => format!("((and {CTX_Z} {CTX_MOD}))"),
+            4 => format!("((not {CTX_Z}))"),
+            5 => format!("((input real {CTX_X}))"),
+            6 => format!("((layer {l}))"),
+            7 => format!("((base-layer {l}))"),
+            _ => "()".to_string(),
+        }
+    }
+    fn action(&mut self, depth: u32, allow_wait: bool, level: u32) -> String {
+        self.info.depth = self.info.depth.max(level);
+        if depth == 0 {
+            return self.leaf();
+        }
+        let t = self.t;
+        let r = self.rng.usize(100);
+        if r < 22 {
+            self.leaf()
+        } else if r < 36 {
+            self.info.forms.insert("multi");
+            let n = 2 + self.rng.usize(2);
+            let mut v = vec![];
+            for i in 0..n {
+                v.push(self.action(depth - 1, allow_wait && i == 0, level + 1));
+            }
+            format!("(multi {})", v.join(" "))
+        } else if r < 56 {
+            if !allow_wait {
+                return self.leaf();
+            }
+            let variant = self.rng.usize(7);
+            let tap = self.action(depth - 1, false, level + 1);
+            let hold = self.action(depth - 1, false, level + 1);
+            match variant {
+                0 => {
+                    self.info.forms.insert("tap-hold");
+                    format!("(tap-hold {t} {t} {tap} {hold})")
+                }
+                1 => {
+                    self.info.forms.insert("tap-hold-press");
+                    format!("(tap-hold-press {t} {t} {tap} {hold})")
+                }
+                2 => {
+                    self.info.forms.insert("tap-hold-release");
+                    format!("(tap-hold-release {t} {t} {tap} {hold})")
+                }
+                3 => {
+                    self.info.forms.insert("tap-hold-press-timeout");
+                    let to = self.action(depth - 1, false, level + 1);
+                    format!("(tap-hold-press-timeout {t} {t} {tap} {hold} {to})")
+                }
+                4 => {
+                    self.info.forms.insert("tap-hold-release-timeout");
+                    let to = self.action(depth - 1, false, level + 1);
+                    format!("(tap-hold-release-timeout {t} {t} {tap} {hold} {to})")
+                }
+                5 => {
+                    self.info.forms.insert("tap-hold-release-keys");
+                    format!("(tap-hold-release-keys {t} {t} {tap} {hold} ({CTX_X}))")
+                }
+                _ => {
+                    self.info.forms.insert("tap-hold-except-keys");
+                    format!("(tap-hold-except-keys {t} {t} {tap} {hold} ({CTX_X}))")
+                }
+            }
+        } else if r < 64 {
+            if !allow_wait {
+                return self.leaf();
+            }
+            let eager = self.rng.coin();
+            self.info.forms.insert(if eager { "tap-dance-eager" } else { "tap-dance" });
+            let n = 1 + self.rng.usize(3);
+            let v: Vec<String> = (0..n).map(|_| self.action(depth - 1, false, level + 1)).collect();
+            format!("({} {t} ({}))", if eager { "tap-dance-eager" } else { "tap-dance" }, v.join(" "))
+        } else if r < 71 {
+            self.info.forms.insert("one-shot");
+            let v = *self.rng.pick(&["one-shot", "one-shot-press", "one-shot-release", "one-shot-press-pcancel", "one-shot-release-pcancel"]);
+            let inner = if self.rng.coin() && self.allow_mod_keys {
+                self.info.mod_as_key = true;
+                self.rng.pick(self.a.mods).to_string()
+            } else if self.rng.coin() {
+                self.chord()
+            } else {
+                self.letter()
+            };
+            format!("({v} {} {inner})", t + 20)
+        } else if r < 81 {
+            self.info.forms.insert("fork");
+            let l = self.action(depth - 1, allow_wait, level + 1);
+            let rr = self.action(depth - 1, allow_wait, level + 1);
+            let keys = *self.rng.pick(&[CTX_Z, CTX_MOD, "z lmet"]);
+            format!("(fork {l} {rr} ({keys}))")
+        } else if r < 91 {
+            self.info.forms.insert("switch");
+            let n = 1 + self.rng.usize(3);
+            let mut s = String::from("(switch");
+            for i in 0..n {
+                let c = self.cond();
+                let a = self.action(depth - 1, false, level + 1);
+                let brk = if self.rng.chance(1, 3) {
+                    self.info.forms.insert("switch-fallthrough");
+                    "fallthrough"
+                } else {
+                    "break"
+                };
+                let _ = i;
+                s.push_str(&format!(" {c} {a} {brk}"));
+            }
+            s.push(')');
+            s
+        } else if r < 96 {
+            self.info.forms.insert("unmod");
+            self.info.unmod = true;
+            if self.rng.coin() {
+                format!("(unmod {})", self.letter())
+            } else {
+                format!("(unmod {} {})", self.letter(), self.letter())
+            }
+        } else if r < 98 {
+            self.info.forms.insert("unshift");
+            self.info.unmod = true;
+            format!("(unshift {})", self.letter())
+        } else {
+            self.info.forms.insert("use-defsrc");
+            "use-defsrc".to_string()
+        }
+    }
+}
+
+struct Cfg {
+    text: String,
+    n_layers: usize,
+    /// cells[layer][key]
+    cells: Vec<Vec<CellInfo>>,
+    has_overrides: bool,
+    override_inputs: Vec<String>,
+    chords_v1: bool,
+    chords_v2: bool,
+    /// some override writes a modifier into its output
+    ov_out_mods: bool,
+    /// override-release-on-activation: override outputs are only tapped, nothing stays down to repeat
+    ov_release: bool,
+    t: u32,
+    seq_mode: &'static str,
+    /// OS names: what a key's own actions (and the chords it takes part in) can output
+    alph_own: [BTreeSet<String>; 3],
+    /// the same plus, with chords v1, every output of the chord group (kanata lists them for every key)
+    alph_names: [BTreeSet<String>; 3],
+    mod_names: BTreeSet<String>,
+}
+
+fn make_cfg(rng: &mut Rng, systematic: Option<usize>) -> Cfg {
+    let n_layers = 1 + rng.usize(3);
+    let t = *rng.pick(&[30u32, 60]);
+    let chords_v2 = rng.chance(1, 5);
+    let chords_v1 = !chords_v2 && rng.chance(1, 4);
+    let has_overrides = rng.chance(1, 2);
+    let seq_mode = *rng.pick(&["hidden-suppressed", "visible-backspaced", "hidden-delay-type"]);
+    let mut cells: Vec<Vec<CellInfo>> = vec![];
+    for layer in 0..n_layers {
+        let mut row = vec![];
+        for (ki, a) in ALPH.iter().enumerate() {
+            let allow_mod_keys = rng.coin();
+            let mut g = ActGen { rng, a, n_layers, info: CellInfo::default(), allow_mod_keys, t };
+            let roll = g.rng.usize(100);
+            let text = if roll < if layer == 0 { 8 } else { 22 } && !(chords_v1 && layer == 0) {
+                g.info.forms.insert("transparent");
+                g.info.transparent = true;
+                "_".to_string()
+            } else if chords_v1 && (layer == 0 || roll < 26) {
+                g.info.forms.insert("chord-v1");
+                format!("(chord cg k{ki})")
+            } else {
+                let depth = match systematic {
+                    Some(d) => (d % 4) as u32,
+                    None => g.rng.usize(4) as u32,
+                };
+                g.action(depth, true, 0)
+            };
+            let mut info = g.info;
+            info.text = text;
+            row.push(info);
+        }
+        cells.push(row);
+    }
+    // chord group / chords v2 definitions
+    let mut extra = String::new();
+    let mut chord_infos: Vec<CellInfo> = vec![];
+    if chords_v1 {
+        let mut s = format!("(defchords cg {t}");
+        for (ki, a) in ALPH.iter().enumerate() {
+            let mut g = ActGen { rng, a, n_layers, info: CellInfo::default(), allow_mod_keys: false, t };
+            let act = g.action(1, false, 1);
+            chord_infos.push(g.info.clone());
+            s.push_str(&format!(" (k{ki}) {act}"));
+        }
+        s.push_str(&format!(" (k0 k1) {} (k1 k2) {}", CHORD_POOL[0][0], CHORD_POOL[1][0]));
+        s.push_str(")\n");
+        extra.push_str(&s);
+    }
+    if chords_v2 {
+        extra.push_str(&format!(
+            "(defchordsv2\n  (q w) {} {t} {} ()\n  (w e) {} {t} {} ()\n)\n",
+            CHORD_POOL[0][1],
+            if rng.coin() { "all-released" } else { "first-release" },
+            CHORD_POOL[1][1],
+            if rng.coin() { "all-released" } else { "first-release" }
+        ));
+    }
+    let mut override_inputs = vec![];
+    let mut ov_pairs: Vec<(String, String)> = vec![];
+    // override-release-on-activation is not generated: its documented effect (override outputs are
+    // only tapped) changes the pressed set by itself one tick after activation, and a repeat injected
+    // in exactly that tick sees kanata one tick ahead of the OS
+    let ov_release = false;
+    let mut ov_out_mods = false;
+    if has_overrides {
+        let mut s = String::from("(defoverrides\n");
+        let n = 1 + rng.usize(3);
+        let mut used: Vec<String> = vec![];
+        for _ in 0..n {
+            let a = &ALPH[rng.usize(3)];
+            let k = rng.pick(a.letters).to_string();
+            let m_in = if rng.coin() { Some(*rng.pick(a.mods)) } else { None };
+            let key_in = format!("{}{}", m_in.map(|m| format!("{m} ")).unwrap_or_default(), k);
+            if used.contains(&key_in) {
+                continue;
+            }
+            used.push(key_in.clone());
+            let o = rng.pick(a.ov).to_string();
+            let m_out = if rng.chance(1, 3) { Some(*rng.pick(a.mods)) } else { None };
+            ov_out_mods |= m_out.is_some();
+            s.push_str(&format!("  ({key_in}) ({}{o})\n", m_out.map(|m| format!("{m} ")).unwrap_or_default()));
+            ov_pairs.push((k.clone(), o.clone()));
+            override_inputs.push(k);
+        }
+        s.push_str(")\n");
+        extra.push_str(&s);
+    }
+    for row in cells.iter_mut() {
+        for (ki, c) in row.iter_mut().enumerate() {
+            c.dup_keys = has_dup_keys(&c.text, ALPH[ki].phys, &ov_pairs);
+        }
+    }
+    // layers
+    let mut src: Vec<String> = ALPH.iter().map(|a| a.phys.to_string()).collect();
+    for k in [CTX_Z, CTX_X, CTX_MOD].iter().chain(LAYER_KEYS.iter()).chain(SWITCH_KEYS.iter()).chain([LEADER].iter()) {
+        src.push(k.to_string());
+    }
+    let mut text = format!(
+        "(defcfg process-unmapped-keys yes concurrent-tap-hold {} sequence-timeout 80 sequence-input-mode {seq_mode}{})\n(defsrc {})\n",
+        if chords_v2 || rng.coin() { "yes" } else { "no" },
+        if has_overrides && ov_release { " override-release-on-activation yes" } else { "" },
+        src.join(" ")
+    );
+    for layer in 0..n_layers {
+        let mut row: Vec<String> = cells[layer].iter().map(|c| c.text.clone()).collect();
+        // the context keys do the same on every layer (a transparent cell on a switched base layer
+        // would fall through to the defsrc key)
+        let tr = |s: &str| s.to_string();
+        row.push(tr(CTX_Z));
+        row.push(tr(CTX_X));
+        row.push(tr(CTX_MOD));
+        row.push(if n_layers > 1 { tr("(layer-while-held l1)") } else { tr("XX") });
+        row.push(if n_layers > 2 { tr("(layer-while-held l2)") } else { tr("XX") });
+        row.push(if n_layers > 1 { tr("(layer-switch l1)") } else { tr("XX") });
+        row.push(tr("(layer-switch l0)"));
+        row.push(tr("sldr"));
+        text.push_str(&format!("(deflayer l{layer} {})\n", row.join(" ")));
+    }
+    text.push_str("(defvirtualkeys vk1 f24)\n(defseq vk1 (q a))\n");
+    text.push_str(&extra);
+    // chord-v1 cells inherit the forms of the group's actions
+    if chords_v1 {
+        for row in cells.iter_mut() {
+            for (ki, c) in row.iter_mut().enumerate() {
+                if c.forms.contains("chord-v1") {
+                    for f in &chord_infos[ki].forms {
+                        c.forms.insert(f);
+                    }
+                    c.unmod |= chord_infos[ki].unmod;
+                }
+            }
+        }
+    }
+    let mut alph_names: [BTreeSet<String>; 3] = Default::default();
+    let mut alph_own: [BTreeSet<String>; 3] = Default::default();
+    let mut mod_names = BTreeSet::new();
+    for (i, a) in ALPH.iter().enumerate() {
+        for k in a.letters.iter().chain(a.mods.iter()).chain(a.ov.iter()) {
+            alph_names[i].insert(code_name(osc(k)));
+            alph_own[i].insert(code_name(osc(k)));
+        }
+        for m in a.mods {
+            mod_names.insert(code_name(osc(m)));
+        }
+    }
+    // chord outputs belong to both participants (v1: kanata lists every action of a chord group
+    // for every key of the group, so there they belong to all three)
+    for (p, pool) in CHORD_POOL.iter().enumerate() {
+        for k in pool {
+            for i in 0..3 {
+                if chords_v1 || i == p || i == p + 1 {
+                    alph_names[i].insert(code_name(osc(k)));
+                }
+                if i == p || i == p + 1 {
+                    alph_own[i].insert(code_name(osc(k)));
+                }
+            }
+        }
+    }
+    Cfg { text, n_layers, cells, has_overrides, override_inputs, chords_v1, chords_v2, ov_out_mods, ov_release: has_overrides && ov_release, t, seq_mode, alph_own, alph_names, mod_names }
+}
+
+// ------------------------------------------------------------------------------------------------
+// driver
+
+struct Drv {
+    sim: Sim,
+    hist: Vec<Ev>,
+}
+
+impl Drv {
+    fn tick(&mut self, n: u64) {
+        if n == 0 {
+            return;
+        }
+        self.sim.ticks(n);
+        if let Some(Ev::T(k)) = self.hist.last_mut() {
+            *k += n as u32;
+        } else {
+            self.hist.push(Ev::T(n as u32));
+        }
+    }
+    fn press(&mut self, c: u16) {
+        self.sim.press(c);
+        self.hist.push(Ev::P(c));
+    }
+    fn release(&mut self, c: u16) {
+        self.sim.release(c);
+        self.hist.push(Ev::R(c));
+    }
+    fn settled(&self) -> bool {
+        let l = self.sim.k.layout.b();
+        l.waiting.is_none() && l.extra_waiting.is_empty() && l.queue.is_empty() && l.action_queue.is_empty() && l.oneshot.keys.is_empty() && self.sim.k.sequence_state.is_inactive()
+    }
+}
+
+#[derive(Clone)]
+struct Held {
+    /// index into ALPH
+    ki: usize,
+    code: u16,
+    /// OS keys down just before the press
+    before: BTreeSet<String>,
+    /// pressed from a settled state (no pending decision, empty queue, no one-shot, no sequence)
+    from_settled: bool,
+    /// layer context at press time
+    layers_at_press: (Vec<usize>, usize),
+}
+
+struct Window<'a> {
+    cfg: &'a Cfg,
+    d: Drv,
+    held_layers: Vec<usize>,
+    base: usize,
+    held: Vec<Held>,
+    ctx_down: Vec<u16>,
+    seq_started: bool,
+    /// a judged key whose effective cell contains unmod/unshift was pressed in this window
+    unmod_pressed: bool,
+    /// some key was pressed while kanata was in sequence mode (its press may have been withheld)
+    pressed_in_seq: bool,
+}
+
+impl<'a> Window<'a> {
+    fn effective_cell(&self, ki: usize, layers: &(Vec<usize>, usize)) -> &CellInfo {
+        // generator-side resolution: held layers newest first, then the base layer
+        for l in layers.0.iter().rev() {
+            if !self.cfg.cells[*l][ki].transparent {
+                return &self.cfg.cells[*l][ki];
+            }
+        }
+        &self.cfg.cells[layers.1][ki]
+    }
+}
+
+fn witness(cfg: &Cfg, d: &Drv, observed: Value, expected: Value, extra: Value) -> Value {
+    json!({
+        "config": cfg.text,
+        "history": render_hist(&d.hist),
+        "observed": observed,
+        "expected": expected,
+        "os_model": d.sim.os.describe(),
+        "extra": extra,
+    })
+}
+
+/// inject one Repeat for physical key `code` and judge it
+fn do_repeat(out: &mut CaseOut, w: &mut Window, code: u16, hostile: bool) {
+    let down_before: BTreeSet<String> = w.d.sim.os.keys_down.clone();
+    let in_seq = w.d.sim.k.sequence_state.is_active();
+    let n0 = w.d.sim.trace.len();
+    w.d.sim.repeat(code);
+    w.d.hist.push(Ev::Rep(code));
+    let outs: Vec<_> = w.d.sim.trace[n0..].to_vec();
+    out.inc("repeats_injected");
+    if outs.is_empty() {
+        out.inc("repeats_dropped");
+    } else {
+        out.inc("repeats_forwarded");
+    }
+    if in_seq {
+        out.inc("repeats_in_sequence_mode");
+    }
+    let pending = {
+        let l = w.d.sim.k.layout.b();
+        l.waiting.is_some() || !l.extra_waiting.is_empty()
+    };
+    if pending {
+        out.inc("repeats_during_pending_decision");
+    }
+    let held = w.held.iter().find(|h| h.code == code).cloned();
+    let layers_now = (w.held_layers.clone(), w.base);
+    let cell = held.as_ref().map(|h| w.effective_cell(h.ki, &layers_now).clone());
+    let shown: Vec<String> = outs.iter().map(|o| o.short()).collect();
+    // ---- safety
+    if outs.len() > 1 {
+        out.violate("C14:more-than-one-output", format!("a repeat of {} produced {} outputs", code_name(code), outs.len()), witness(w.cfg, &w.d, json!(shown), json!("at most one repeat"), json!(null)));
+        return;
+    }
+    if let Some(o) = outs.first() {
+        if o.kind != OutKind::Repeat {
+            out.violate("C14:non-repeat-output", format!("a repeat of {} produced {}", code_name(code), o.short()), witness(w.cfg, &w.d, json!(shown), json!("a key repeat or nothing"), json!(null)));
+            return;
+        }
+        if !down_before.contains(&o.name) {
+            // classify: the documented class is unmod/unshift together with overrides
+            let any_unmod_held = w.unmod_pressed;
+            let sig = if w.pressed_in_seq && w.cfg.seq_mode != "visible-backspaced" {
+                // a key pressed while a hidden sequence was being typed never reached the OS
+                "C14:repeat-of-up-key:press-hidden-by-sequence-mode"
+            } else if any_unmod_held && w.cfg.has_overrides {
+                "C14:repeat-of-up-key:unmod+override"
+            } else if any_unmod_held && w.cfg.mod_names.contains(&o.name) || any_unmod_held && o.name == code_name(osc(CTX_MOD)) {
+                "C14:repeat-of-up-key:modifier-suppressed-by-unmod"
+            } else {
+                "C14:repeat-of-up-key"
+            };
+            out.violate(
+                sig,
+                format!("a repeat of {} was forwarded for {}, which is up in the OS (down: {:?})", code_name(code), o.name, down_before),
+                witness(w.cfg, &w.d, json!(shown), json!({"repeat_only_for_a_key_in": down_before}), json!({"cell": cell.as_ref().map(|c| c.text.clone())})),
+            );
+            return;
+        }
+    }
+    if hostile {
+        return;
+    }
+    // ---- completeness
+    let Some(h) = held else { return };
+    let cell = cell.unwrap();
+    if in_seq {
+        return;
+    }
+    if !h.from_settled {
+        out.inc("not_judged_pressed_while_unsettled");
+        return;
+    }
+    if h.layers_at_press != layers_now {
+        out.inc("not_judged_layers_changed");
+        return;
+    }
+    if w.cfg.ov_release {
+        out.inc("not_judged_override_release_on_activation");
+        return;
+    }
+    if h.before.iter().any(|k| w.cfg.alph_names[h.ki].contains(k)) {
+        // something of this key's alphabet was already down before it was pressed (a chord output
+        // still held by the partner key, a lingering one-shot): attribution would be ambiguous
+        out.inc("not_judged_alphabet_not_clean_at_press");
+        return;
+    }
+    let attributed: BTreeSet<String> = down_before.iter().filter(|k| !h.before.contains(*k) && w.cfg.alph_own[h.ki].contains(*k)).cloned().collect();
+    if attributed.is_empty() {
+        out.inc("not_judged_nothing_attributed");
+        return;
+    }
+    out.inc("completeness_judged");
+    for f in &cell.forms {
+        out.inc(&format!("judged_form_{f}"));
+    }
+    out.max("judged_nesting_depth", cell.depth as u64);
+    out.inc(&format!("judged_depth_{}", cell.depth));
+    if !layers_now.0.is_empty() {
+        out.inc("judged_with_held_layer");
+    }
+    if layers_now.1 != 0 {
+        out.inc("judged_on_switched_base_layer");
+    }
+    if cell.transparent || w.cfg.cells[layers_now.0.last().copied().unwrap_or(layers_now.1)][h.ki].transparent {
+        out.inc("judged_through_transparent");
+    }
+    if w.cfg.has_overrides {
+        out.inc("judged_with_overrides");
+    }
+    let exp = json!({"one_repeat_for_a_key_in": attributed});
+    let extra = json!({"cell": cell.text, "held_layers": layers_now.0, "base_layer": layers_now.1, "down_before_press": h.before});
+    match outs.first() {
+        None => {
+            // every searched layer is transparent for this key: kanata falls back to the defsrc key
+            let sig = if cell.transparent && w.cfg.has_overrides { "C14:repeat-dropped:defsrc-fallback+override" } else { "C14:repeat-dropped" };
+            out.violate(sig, format!("{} holds {:?} down through {} but its repeat produced nothing", code_name(code), attributed, cell.forms.iter().copied().collect::<Vec<_>>().join("/")), witness(w.cfg, &w.d, json!(shown), exp, extra));
+        }
+        Some(o) => {
+            if !attributed.contains(&o.name) {
+                // chords v1: kanata lists the actions of the whole chord group for each of its keys
+                let other_held_alph = (0..3).any(|x| x != h.ki && w.cfg.alph_names[x].contains(&o.name));
+                let sig = if cell.forms.contains("chord-v1") && other_held_alph { "C14:repeat-of-foreign-key:chords-v1-group-shares-outputs" } else { "C14:repeat-of-foreign-key" };
+                out.violate(sig, format!("{} holds {:?} down but the repeat was for {}", code_name(code), attributed, o.name), witness(w.cfg, &w.d, json!(shown), exp, extra));
+            } else if !cell.mod_as_key && !cell.dup_keys && !cell.forms.contains("chord-v1") && !cell.forms.contains("multi") && !cell.forms.contains("switch-fallthrough") && !w.cfg.ov_out_mods && !any_mod_as_key(w.cfg, h.ki) && w.cfg.mod_names.contains(&o.name) && attributed.iter().any(|k| !w.cfg.mod_names.contains(k)) {
+                out.violate("C14:repeat-of-modifier-instead-of-key", format!("{} holds {:?} down (modifiers only as output-chord prefixes) but the repeat was for the modifier {}", code_name(code), attributed, o.name), witness(w.cfg, &w.d, json!(shown), exp, extra));
+            } else {
+                out.inc("completeness_ok");
+                if w.cfg.mod_names.contains(&o.name) {
+                    out.inc("repeat_was_a_modifier");
+                }
+            }
+        }
+    }
+    out.tag(format!("{}|L{:?}b{}|{}", shape(&cell.text), layers_now.0, layers_now.1, w.cfg.has_overrides));
+}
+
+fn any_mod_as_key(cfg: &Cfg, ki: usize) -> bool {
+    cfg.cells.iter().any(|row| row[ki].mod_as_key)
+}
+
+fn has_dup_keys(text: &str, phys: &str, ov: &[(String, String)]) -> bool {
+    // every key name an action text can output, modifiers of chord prefixes included; kanata lists
+    // each output once, so a name written twice moves "last-listed" away from the text position
+    let mut seen: Vec<String> = vec![];
+    let add = |k: &str, seen: &mut Vec<String>| -> bool {
+        if seen.iter().any(|x| x == k) {
+            return true;
+        }
+        seen.push(k.to_string());
+        // kanata lists the override outputs of a key right after it
+        for (i, o) in ov {
+            if i == k {
+                if seen.iter().any(|x| x == o) {
+                    return true;
+                }
+                seen.push(o.clone());
+            }
+        }
+        false
+    };
+    for tok in text.split(|c: char| c == '(' || c == ')' || c == ' ') {
+        if tok.is_empty() {
+            continue;
+        }
+        if tok == "use-defsrc" {
+            if add(phys, &mut seen) {
+                return true;
+            }
+            continue;
+        }
+        if ["lsft", "rsft", "lctl", "rctl", "lalt", "ralt"].contains(&tok) {
+            if add(tok, &mut seen) {
+                return true;
+            }
+            continue;
+        }
+        let mut rest = tok;
+        let mut was_chord = false;
+        loop {
+            let mut hit = false;
+            for (p, m) in [("RS-", "rsft"), ("RC-", "rctl"), ("RA-", "ralt"), ("S-", "lsft"), ("C-", "lctl"), ("A-", "lalt")] {
+                if let Some(r) = rest.strip_prefix(p) {
+                    if add(m, &mut seen) {
+                        return true;
+                    }
+                    rest = r;
+                    hit = true;
+                    was_chord = true;
+                    break;
+                }
+            }
+            if !hit {
+                break;
+            }
+        }
+        let _ = was_chord;
+        if rest.len() == 1 && rest.chars().all(|c| c.is_ascii_lowercase()) && add(rest, &mut seen) {
+            return true;
+        }
+    }
+    false
+}
+
+/// structural shape of an action text: key names -> k, modifiers -> m, numbers -> N
+fn shape(t: &str) -> String {
+    let mut out = String::new();
+    let mut tok = String::new();
+    let flush = |tok: &mut String, out: &mut String| {
+        if tok.is_empty() {
+            return;
+        }
+        let s = if tok.chars().all(|c| c.is_ascii_digit()) {
+            "N".to_string()
+        } else if tok.len() == 1 {
+            "k".to_string()
+        } else if ["lsft", "rsft", "lctl", "rctl", "lalt", "ralt", "lmet"].contains(&tok.as_str()) {
+            "m".to_string()
+        } else if tok.contains('-') && tok.chars().next().map(|c| c.is_ascii_uppercase()).unwrap_or(false) {
+            format!("c{}", tok.matches('-').count())
+        } else {
+            tok.clone()
+        };
+        out.push_str(&s);
+        tok.clear();
+    };
+    for ch in t.chars() {
+        if ch == '(' || ch == ')' || ch == ' ' {
+            flush(&mut tok, &mut out);
+            out.push(ch);
+        } else {
+            tok.push(ch);
+        }
+    }
+    flush(&mut tok, &mut out);
+    out
+}
+
+fn run_window(out: &mut CaseOut, cfg: &Cfg, rng: &mut Rng, wi: usize) -> Option<()> {
+    let sim = Sim::new(&cfg.text).ok()?;
+    let mut w = Window { cfg, d: Drv { sim, hist: vec![] }, held_layers: vec![], base: 0, held: vec![], ctx_down: vec![], seq_started: false, unmod_pressed: false, pressed_in_seq: false };
+    let settle = (4 * cfg.t + 140) as u64;
+    // ---- context
+    if cfg.n_layers > 1 && rng.chance(1, 3) {
+        // switch the base layer
+        w.d.press(osc(SWITCH_KEYS[0]));
+        w.d.tick(3);
+        w.d.release(osc(SWITCH_KEYS[0]));
+        w.d.tick(5);
+        w.base = 1;
+    }
+    if cfg.n_layers > 1 && rng.chance(1, 2) {
+        let which = if cfg.n_layers > 2 { rng.usize(2) } else { 0 };
+        w.d.press(osc(LAYER_KEYS[which]));
+        w.ctx_down.push(osc(LAYER_KEYS[which]));
+        w.held_layers.push(which + 1);
+        w.d.tick(3);
+        if cfg.n_layers > 2 && rng.chance(1, 3) {
+            let other = 1 - which;
+            w.d.press(osc(LAYER_KEYS[other]));
+            w.ctx_down.push(osc(LAYER_KEYS[other]));
+            w.held_layers.push(other + 1);
+            w.d.tick(3);
+        }
+    }
+    for k in [CTX_Z, CTX_MOD] {
+        if rng.chance(1, 3) {
+            w.d.press(osc(k));
+            w.ctx_down.push(osc(k));
+            w.d.tick(3);
+        }
+    }
+    if rng.chance(1, 8) {
+        // sequence mode
+        w.d.press(osc(LEADER));
+        w.d.tick(2);
+        w.d.release(osc(LEADER));
+        w.d.tick(2);
+        w.seq_started = true;
+        out.inc("windows_in_sequence_mode");
+    } else {
+        w.d.tick(10);
+    }
+    // ---- events
+    let n_events = 4 + rng.usize(14);
+    let x = osc(CTX_X);
+    let mut x_down = false;
+    let mut last_event_tick = w.d.sim.now;
+    for _ in 0..n_events {
+        let r = rng.usize(100);
+        let free: Vec<usize> = (0..3).filter(|ki| !w.held.iter().any(|h| h.ki == *ki)).collect();
+        if r < 22 && !free.is_empty() {
+            // press a judged key; often from a settled state, sometimes right away (chords, pending tap-holds)
+            if rng.chance(3, 5) {
+                w.d.tick(settle);
+            }
+            let ki = *rng.pick(&free);
+            let code = osc(ALPH[ki].phys);
+            let from_settled = w.d.settled();
+            let before = w.d.sim.os.keys_down.clone();
+            if w.d.sim.k.sequence_state.is_active() {
+                w.pressed_in_seq = true;
+            }
+            w.d.press(code);
+            let lp = (w.held_layers.clone(), w.base);
+            if w.effective_cell(ki, &lp).unmod {
+                w.unmod_pressed = true;
+            }
+            w.held.push(Held { ki, code, before, from_settled, layers_at_press: lp });
+            out.inc(if from_settled { "presses_from_settled_state" } else { "presses_while_unsettled" });
+            last_event_tick = w.d.sim.now;
+        } else if r < 60 && !w.held.is_empty() {
+            // repeat of a held judged key (an OS repeats the most recent one, but any is legal)
+            let h = if rng.chance(2, 3) { w.held.last().unwrap().clone() } else { rng.pick(&w.held).clone() };
+            do_repeat(out, &mut w, h.code, false);
+            if rng.chance(1, 3) {
+                // a burst of repeats like a real OS sends them
+                for _ in 0..rng.usize(3) {
+                    w.d.tick(rng.range(1, 30));
+                    do_repeat(out, &mut w, h.code, false);
+                }
+            }
+        } else if r < 66 && !w.ctx_down.is_empty() {
+            // repeat of a held context key (layer key, z, lmet)
+            let c = *rng.pick(&w.ctx_down);
+            do_repeat(out, &mut w, c, false);
+        } else if r < 72 {
+            // the other key: triggers tap-hold-press / release-keys decisions, clears output chords
+            if x_down {
+                w.d.release(x);
+            } else {
+                if w.d.sim.k.sequence_state.is_active() {
+                    w.pressed_in_seq = true;
+                }
+                w.d.press(x);
+            }
+            x_down = !x_down;
+            last_event_tick = w.d.sim.now;
+        } else if r < 78 && !w.held.is_empty() {
+            let i = rng.usize(w.held.len());
+            let h = w.held.remove(i);
+            w.d.release(h.code);
+            // hostile: a repeat for a key that was just released
+            if rng.chance(1, 3) {
+                w.d.tick(rng.below(3));
+                do_repeat(out, &mut w, h.code, true);
+            }
+            last_event_tick = w.d.sim.now;
+        } else if r < 82 {
+            // hostile: repeat of a key that is not held at all
+            let c = osc(*rng.pick(&["q", "w", "e", CTX_X, CTX_Z, "f1"]));
+            if !w.held.iter().any(|h| h.code == c) && !w.ctx_down.contains(&c) {
+                do_repeat(out, &mut w, c, true);
+            }
+        } else {
+            // let time pass: 1-2 ticks (pending decisions) or past every timeout
+            let t = match rng.usize(4) {
+                0 => 1,
+                1 => rng.range(1, cfg.t as u64),
+                2 => cfg.t as u64 + rng.range(0, 3),
+                _ => settle,
+            };
+            w.d.tick(t);
+        }
+    }
+    let _ = last_event_tick;
+    // ---- wind down
+    if x_down {
+        w.d.release(x);
+    }
+    let held: Vec<Held> = w.held.drain(..).collect();
+    for h in held {
+        w.d.release(h.code);
+        w.d.tick(1);
+    }
+    let ctx: Vec<u16> = w.ctx_down.drain(..).collect();
+    for c in ctx.into_iter().rev() {
+        w.d.release(c);
+        w.d.tick(1);
+    }
+    w.d.tick(settle);
+    out.inc("windows");
+    let _ = wi;
+    Some(())
+}
+
+/// the documented defect, deterministically: `(unmod k)` with an override on `k`
+fn known_witness_case(out: &mut CaseOut) {
+    let text = "(defcfg process-unmapped-keys yes)\n(defsrc q lsft)\n(deflayer l0 (unmod q) lsft)\n(defoverrides (q) (1))\n";
+    let Ok(sim) = Sim::new(text) else {
+        out.inc("configs_rejected");
+        return;
+    };
+    let mut d = Drv { sim, hist: vec![] };
+    d.press(osc("q"));
+    d.tick(10);
+    let down = d.sim.os.keys_down.clone();
+    let n0 = d.sim.trace.len();
+    d.sim.repeat(osc("q"));
+    d.hist.push(Ev::Rep(osc("q")));
+    let outs: Vec<_> = d.sim.trace[n0..].to_vec();
+    out.inc("repeats_injected");
+    out.inc("minimal_unmod_override_witness_runs");
+    if let Some(o) = outs.first() {
+        if !down.contains(&o.name) {
+            let cfg_text = text.to_string();
+            out.violate(
+                "C14:repeat-of-up-key:unmod+override",
+                format!("(unmod q) with (defoverrides (q) (1)): the OS holds {:?} but the repeat is forwarded for {}", down, o.name),
+                json!({"config": cfg_text, "history": render_hist(&d.hist), "observed": outs.iter().map(|o| o.short()).collect::<Vec<_>>(), "expected": {"repeat_only_for_a_key_in": down}, "os_model": d.sim.os.describe()}),
+            );
+        }
+    }
+    d.release(osc("q"));
+    d.tick(20);
+}
+
+const N_SYSTEMATIC: u64 = 64;
 
 impl Check for C14Check {
     fn id(&self) -> &'static str {
         "C14"
     }
-    fn n_cases(&self, _ctx: &Ctx) -> u64 {
-        0
+    fn n_cases(&self, ctx: &Ctx) -> u64 {
+        ctx.tier.sel(20_000, 300_000)
     }
-    fn run_case(&self, _ctx: &Ctx, _idx: u64) -> CaseOut {
-        CaseOut::new()
+    fn describe(&self, ctx: &Ctx, idx: u64) -> Value {
+        let mut rng = Rng::for_case(ctx.seed, "C14", "cfg", idx);
+        let cfg = make_cfg(&mut rng, if idx < N_SYSTEMATIC { Some(idx as usize) } else { None });
+        json!({"config": cfg.text})
+    }
+    fn run_case(&self, ctx: &Ctx, idx: u64) -> CaseOut {
+        let mut out = CaseOut::new();
+        if idx == 0 {
+            known_witness_case(&mut out);
+        }
+        let mut rng = Rng::for_case(ctx.seed, "C14", "cfg", idx);
+        let cfg = make_cfg(&mut rng, if idx < N_SYSTEMATIC { Some(idx as usize) } else { None });
+        if ctx.verbose {
+            eprintln!("{}", cfg.text);
+        }
+        match Sim::new(&cfg.text) {
+            Ok(_) => out.inc("configs_accepted"),
+            Err(e) => {
+                out.inc("configs_rejected");
+                if ctx.verbose {
+                    eprintln!("rejected: {e}");
+                }
+                return out;
+            }
+        }
+        if cfg.chords_v1 {
+            out.inc("configs_with_chords_v1");
+        }
+        if cfg.chords_v2 {
+            out.inc("configs_with_chords_v2");
+        }
+        if cfg.has_overrides {
+            out.inc("configs_with_overrides");
+        }
+        out.inc(&format!("configs_with_{}_layers", cfg.n_layers));
+        out.inc(&format!("seq_mode_{}", cfg.seq_mode));
+        let mut hrng = Rng::for_case(ctx.seed, "C14", "hist", idx);
+        let n_windows = ctx.tier.sel(6, 10);
+        for wi in 0..n_windows {
+            let v0 = out.violations.len();
+            run_window(&mut out, &cfg, &mut hrng, wi);
+            if out.violations.len() > v0 + 3 {
+                break;
+            }
+        }
+        // one violation per signature and case is enough
+        let mut seen = BTreeSet::new();
+        out.violations.retain(|v| seen.insert(v.sig.clone()));
+        if idx % 1000 < 3 {
+            out.sample = Some(json!({"idx": idx, "config": cfg.text, "override_inputs": cfg.override_inputs}));
+        }
+        out
     }
     fn rule(&self) -> String {
-        "not implemented".into()
+        "case = one configuration with three judged physical keys (each with a private output alphabet of 6 letters, 2 modifiers and 2 override outputs) whose cells on 1-3 layers are random key-producing actions nested to depth 3 (plain key, modifier key, output chord, multi, 7 tap-hold variants, tap-dance lazy/eager, 5 one-shot variants, fork, switch with break/fallthrough and key/input/layer conditions, unmod, unshift, use-defsrc, transparent, chords v1, chords v2), optional defoverrides inside the alphabets, context keys (z, x, lmet, two layer-while-held keys, layer-switch keys, sequence leader with three input modes), x 6 (quick) / 10 (thorough) history windows: context set up, then 4-17 random steps (press a judged key from a settled state or immediately after another, repeats of held judged keys singly and in bursts, repeats of context keys, the other key x, releases followed by a stray repeat, repeats of keys that are not held, waits of 1 tick / below / at / beyond the timeouts). Safety is judged at every repeat, completeness when the precondition in the module header holds. Non-trivial = a repeat that was judged for completeness; distinct = (action shape of the effective cell, layer context, overrides).".into()
     }
     fn assumptions(&self) -> Vec<String> {
-        vec![]
+        vec![
+            "attribution uses disjoint output alphabets per judged key; fork/switch conditions only use context keys outside these alphabets; overrides map inside one alphabet".into(),
+            "the judged keys' own actions contain no layer actions, so the layer stack between press and repeat changes only through the context keys, which are not touched inside a window".into(),
+            "completeness is not judged while kanata is in sequence mode, for keys pressed while a decision was pending or a one-shot was active, or when nothing of the key's alphabet is down".into(),
+            "the 'last-listed key rather than a modifier' clause is judged only for keys whose actions (on every layer) use modifiers exclusively as output-chord prefixes".into(),
+            "allow-hardware-repeat is applied by the OS layer (linux.rs), not by handle_input_event, and is therefore not exercised".into(),
+        ]
+    }
+    fn floors(&self, ctx: &Ctx) -> Vec<(&'static str, u64)> {
+        let s = ctx.tier.sel(1, 20);
+        vec![
+            ("repeats_injected", 40_000 * s),
+            ("repeats_forwarded", 10_000 * s),
+            ("completeness_judged", 8_000 * s),
+            ("repeats_during_pending_decision", 500 * s),
+            ("repeats_in_sequence_mode", 300 * s),
+            ("judged_with_held_layer", 1_000 * s),
+            ("judged_with_overrides", 1_000 * s),
+            ("judged_form_fork", 300 * s),
+            ("judged_form_switch", 300 * s),
+            ("judged_form_multi", 300 * s),
+            ("judged_form_tap-hold", 50 * s),
+            ("judged_form_tap-dance", 50 * s),
+            ("judged_form_one-shot", 100 * s),
+            ("judged_form_unmod", 50 * s),
+            ("judged_form_use-defsrc", 20 * s),
+            ("judged_form_transparent", 100 * s),
+            ("judged_form_chord", 500 * s),
+            ("judged_form_chord-v1", 50 * s),
+            ("minimal_unmod_override_witness_runs", 1),
+        ]
     }
 }
